@@ -39,6 +39,8 @@ var mergeCorpus = []MergeCase{
 	{SDLs: []string{"interface Node { id: ID! }\ntype User implements Node { id: ID! a: String }\ntype Query { node(id: ID!): Node u: User }", "interface Node { id: ID! }\ntype User { id: ID! b: String }\ntype Query { node(id: ID!): Node v: User }"}, Mutation: "ok:D20-possible-types-order"},
 	{SDLs: []string{"type Query { f(a: [Int] = [1, 2]): String }", "type Query { f(a: [Int] = [3]): String }"}, Mutation: "D22-list-default"},
 	{SDLs: []string{"input O { a: Int }\ntype Query { f(o: O = {a: 1}): String }", "input O { a: Int }\ntype Query { f(o: O = {a: 2}): String }"}, Mutation: "D22-object-default"},
+	{SDLs: []string{"enum State { NEW USED }\ntype Query { a: State }", "enum State { NEW USED @deprecated(reason: \"x\") }\ntype Query { b: State }"}, Mutation: "D62-rejected-enum-merge-corrupts-its-input"},
+	{SDLs: []string{"enum Color { RED }\ntype Query { c: Color }", "enum Color { \"described by d\" RED }\ntype Query { d: Color }"}, Mutation: "ok:D62-enum-merge-rewrites-its-input"},
 	{SDLs: []string{"directive @r(n: Int) repeatable on OBJECT\ntype X @r(n: 1) @r(n: 1) { a: String }\ntype Query { x: X }", "directive @r(n: Int) repeatable on OBJECT\ndirective @s on OBJECT\ntype X @r(n: 1) @s { a: String }\ntype Query { y: X }"}, Mutation: "D38-applied-directives-one-sided"},
 }
 
@@ -63,12 +65,15 @@ type mergeOutcome struct {
 	Fed   *Fed
 }
 
-func buildOrder(sdls []string, order []int) mergeOutcome {
-	spec := FedSpec{SDLs: map[string]string{}}
+func buildOrder(sdls []string, order []int, parsed ...*ast.Schema) mergeOutcome {
+	spec := FedSpec{SDLs: map[string]string{}, Parsed: map[string]*ast.Schema{}}
 	for _, k := range order {
 		url := fmt.Sprintf("S%d", k)
 		spec.SDLs[url] = sdls[k]
 		spec.Order = append(spec.Order, url)
+		if k < len(parsed) {
+			spec.Parsed[url] = parsed[k]
+		}
 	}
 	f, err := NewFed(spec, Store{})
 	if err != nil {
@@ -167,16 +172,22 @@ func (m mergeRunner) Run(c *Ctx, i int) CaseResult {
 	add := func(channel, what string, exp, obs interface{}) {
 		res.Fails = append(res.Fails, Failure{Channel: channel, Classifier: "unclassified", What: what, Input: mc, Expected: exp, Observed: obs})
 	}
+	// all gateways of a case are built from the SAME parsed schema objects (one process building several gateways)
+	var srcBefore []string
+	for _, sc := range schemas {
+		srcBefore = append(srcBefore, Canon(SerSchema(sc)))
+	}
 	ps := perms(len(mc.SDLs))
 	if c.Tier == "quick" && len(ps) > 6 {
 		ps = append(ps[:3], ps[len(ps)-3:]...)
 	}
 	var first *mergeOutcome
+	srcModified := false
 	firstOrder := ""
 	counters := map[string]int{"orders": 0}
 	for _, order := range ps {
 		for rep := 0; rep < 2; rep++ {
-			out := buildOrder(mc.SDLs, order)
+			out := buildOrder(mc.SDLs, order, schemas...)
 			counters["orders"]++
 			counters["outcome_"+out.Kind]++
 			// the model on the same order (internal schema last, as gateway.New does)
@@ -200,6 +211,17 @@ func (m mergeRunner) Run(c *Ctx, i int) CaseResult {
 				add("L1.outcome-accepted", fmt.Sprintf("incompatible definitions (%s) are accepted in service order %v", mc.Mutation, order), "error", "ok")
 			case modelOK && Canon(ans["ok"]) != out.Canon:
 				add("L1.content", fmt.Sprintf("merged schema differs from the model's union (order %v): %s", order, diffHint(Canon(ans["ok"]), out.Canon)), ans["ok"], out.Canon)
+			}
+			// no construction, successful or not, modifies the service schemas it was given: the next construction
+			// from the same objects (a retry, a second gateway in the process) must see what this one saw
+			if !srcModified {
+				for k, sc := range schemas {
+					if now := Canon(SerSchema(sc)); now != srcBefore[k] {
+						srcModified = true
+						add("L0.sources-modified", fmt.Sprintf("gateway.New (%s, order %v) modified the schema object of service %d it was given: %s", out.Kind, order, k, diffHint(srcBefore[k], now)), srcBefore[k], now)
+						break
+					}
+				}
 			}
 			if first == nil {
 				o := out
@@ -226,6 +248,29 @@ func (m mergeRunner) Run(c *Ctx, i int) CaseResult {
 		}
 		if len(filterMerge(m.prop, res.Fails)) > 0 {
 			break
+		}
+	}
+	if len(filterMerge(m.prop, res.Fails)) == 0 && first != nil && first.Kind == "ok" {
+		// constructions do not interfere: a gateway built from a sub-list keeps its merged schema while another
+		// gateway is built from an overlapping sub-list of the same schema objects, and no construction modifies
+		// the service schemas it was given
+		if len(schemas) >= 3 {
+			g1 := buildOrder(mc.SDLs, []int{0, 1}, schemas...)
+			g2 := buildOrder(mc.SDLs, []int{0, 2}, schemas...)
+			counters["sublist_constructions"] += 2
+			if g1.Kind == "ok" && g2.Kind == "ok" {
+				again := Canon(CanonMerged(g1.Fed.Merged))
+				if again != g1.Canon {
+					add("L0.construction-isolation", "the merged schema of a gateway built from services [0 1] changed when a gateway was built from [0 2]: "+diffHint(g1.Canon, again), g1.Canon, again)
+				}
+				ans, err := c.Drv.Call(map[string]interface{}{"op": "merge", "schemas": []interface{}{SerSchema(schemas[0]), SerSchema(schemas[1]), SerSchema(internal)}})
+				if err == nil && ans["ok"] != nil && Canon(ans["ok"]) != again {
+					add("L1.content", "merged schema of services [0 1] differs from the model's union after another gateway was built: "+diffHint(Canon(ans["ok"]), again), ans["ok"], again)
+				}
+				if _, err := gqlparser.LoadSchema(&ast.Source{Input: PrintSchema(g1.Fed.Merged)}); err != nil {
+					add("L0.merged-invalid", "the printed merged schema of [0 1] does not load after another gateway was built: "+firstLine(err.Error()), nil, nil)
+				}
+			}
 		}
 	}
 	res.Counters = counters
@@ -267,9 +312,10 @@ func filterMerge(prop string, fails []Failure) []Failure {
 		case "C09":
 			keep = f.Channel == "L1.outcome-panic" || f.Channel == "L1.outcome-accepted" || f.Channel == "harness"
 		case "C10":
-			keep = strings.HasPrefix(f.Channel, "L0.order") || f.Channel == "harness"
+			keep = strings.HasPrefix(f.Channel, "L0.order") || f.Channel == "L0.sources-modified" || f.Channel == "harness"
 		case "C03":
-			keep = f.Channel == "L1.content" || f.Channel == "L1.outcome-rejected" || f.Channel == "L0.merged-invalid" || f.Channel == "L1.routing" || f.Channel == "harness"
+			keep = f.Channel == "L1.content" || f.Channel == "L1.outcome-rejected" || f.Channel == "L0.merged-invalid" || f.Channel == "L1.routing" || f.Channel == "harness" ||
+				f.Channel == "L0.construction-isolation" || f.Channel == "L0.sources-modified"
 		}
 		if keep {
 			out = append(out, f)
